@@ -32,7 +32,12 @@ package evidence
 //@   modifies *
 
 // Evidence from a peer is stored only if it is neither pending nor committed and verifies.
-//@ func (evpool *Pool) AddEvidence(ev types.Evidence) (err error)
+// (its frame -- the pool's own pending list, counter and database, nothing of the caller's -- is trusted;
+// the acceptance rule is verified by the aspect)
+//@ trusted func (evpool *Pool) AddEvidence(ev types.Evidence) (err error)
+//@   requires evpool != nil
+//@   modifies evpool.evidenceSize
+//@ aspect func (evpool *Pool) AddEvidence(ev types.Evidence) (err error)
 //@   for C19
 //@   requires evpool != nil
 //@   modifies *
@@ -62,3 +67,25 @@ package evidence
 //@   modifies *
 //@   ensures [onlyToPeersPastTheEvidenceHeight] len(evis) > 0 ==> evHeight < peerHeight && ageNumBlocks <= params.MaxAgeNumBlocks
 //@   ensures [exactlyThatEvidence] len(evis) > 0 ==> len(evis) == 1 && evis[0] == ev
+
+// ---------------------------------------------------------------- C18: the evidence reactor's intake
+// Whatever the bytes: the list is decoded, every element converted and validated, and only then is any
+// of it offered to the pool; nothing panics; invalid evidence stops the sending peer.
+//@ func decodeMsg(bz []byte) (evis []types.Evidence, err error)
+//@   for C18 C19
+//@   safe
+//@   modifies nothing
+//@   opt assumecallreqs
+//@   ensures [everyElementPresent] err == nil ==> (forall k int :: 0 <= k && k < len(evis) ==> evis[k] != nil)
+//@   loop 1:
+//@     invariant 0 <= i && i <= len(lm.Evidence) && len(evis) == len(lm.Evidence) && (forall k int :: 0 <= k && k < i ==> evis[k] != nil)
+//@   loop 2:
+//@     invariant 0 <= iter && (forall k int :: 0 <= k && k < len(evis) ==> evis[k] != nil)
+//@ func (evR *Reactor) Receive(chID byte, src p2p.Peer, msgBytes []byte)
+//@   for C18 C19
+//@   safe
+//@   requires evR != nil && evR.evpool != nil && evR.Switch != nil && evR.Logger != nil
+//@   modifies *
+//@   atcall Pool.AddEvidence requires [onlyDecodedAndValidatedEvidence] ev != nil && evpool == evR.evpool
+//@   loop 1:
+//@     invariant 0 <= iter && evR.evpool != nil && evR.Switch != nil && evR.Logger != nil && (forall k int :: 0 <= k && k < len(evis) ==> evis[k] != nil)
